@@ -29,8 +29,10 @@ VOut(conv, pyint1) ==
   IF conv = "vectorize_f64" THEN "f64"
   ELSE IF conv = "vectorize_bare" THEN (IF pyint1 THEN "int" ELSE "f64")
   ELSE "f64"                                   \* native NumPy arithmetic on float coordinates
+\* a callable with complex values evaluates to complex128 (NumPy type promotion / inference from a complex first value)
+IsCplx(vals) == \E t \in 1..Len(vals) : vals[t][2] # QZero
 ImplCall(conv, cache, dt, vals, pyint1) ==
-  [res   |-> [t \in 1..Len(vals) |-> ImplCastC(dt, ImplCastC(VOut(conv, pyint1), vals[t]))],
+  [res   |-> [t \in 1..Len(vals) |-> ImplCastC(dt, ImplCastC(IF IsCplx(vals) THEN "c128" ELSE VOut(conv, pyint1), vals[t]))],
    cache |-> IF Decorated(conv) THEN "built" ELSE cache]
 
 \* the cell in which the current tree leaves the reference (open finding): undecorated type inference
